@@ -121,7 +121,7 @@ func c11Run(c c11Case) (sig, msg string, evictions, deletes int) {
 		switch op.Kind {
 		case "put":
 			fresh++
-			v := &SessionState{sessionId: []byte{byte(fresh), byte(step)}, vers: VersionTLCP, cipherSuite: ECC_SM4_GCM_SM3, masterSecret: c11Secret(fresh)}
+			v := &SessionState{sessionId: []byte{byte(fresh), byte(step)}, vers: VersionTLCP, cipherSuite: vfSuites[fresh%len(vfSuites)], masterSecret: c11Secret(fresh)}
 			origSecret[v] = c11Secret(fresh)
 			if model.find(op.Key) < 0 && len(model.order) == model.cap {
 				evictions++
